@@ -60,6 +60,6 @@ theorem new_inv (T : Tunables) (k rf : Nat) (g : Bool) (s0 : Sk Rat) (h : Sk.new
     subst h
     refine ⟨?_, rfl, rfl, rfl⟩
     exact { kpos := hk1, mnil := rfl, fresh := rfl, n_eq := rfl, perm := List.Perm.refl _, pos := by simp,
-            marks := ⟨rfl, by simp⟩, warm := fun _ => ⟨rfl, Nat.zero_le _⟩, est := fun h => absurd rfl h }
+            marks := ⟨rfl, by simp⟩, warm := fun _ => ⟨rfl, Nat.zero_le _, by simp⟩, est := fun h => absurd rfl h }
 
 end DS.VarOpt
